@@ -731,7 +731,7 @@ func cafsProp(prop string) propFn {
 			if prop == "C02" && (i == 3 || i == 4) { // the empty content, twice in a row, into the shared store
 				content = nil
 			}
-			long := (prop == "C02" || prop == "C01") && i%6 == 5
+			long := prop == "C02" && i%6 == 5
 			if long { // many leaves, kept in flight by slow blob writes
 				content = r.Bytes(L*r.Range(17, 40) + r.Intn(L))
 			}
